@@ -1,7 +1,7 @@
 SPECIFICATION Spec
 CONSTANTS
   MaxLen = 4
-  Atoms = {"G1", "G2", "p", ",", "{", "}", ";", ":", "@m", "(", ")", "<!--"}
+  Atoms = {"G1", "G2", "B1", ">", "p", ",", "{", "}", ";", ":", "@m", "(", ")", "<!--"}
   Emit = TRUE
   EmitOneIn = 1
 INVARIANTS Inv_Syntax Inv_Stop Inv_Emit
